@@ -100,38 +100,60 @@ func runC04(r *fw.Run) {
 	tag := 0
 	for k := 0; k < sets; k++ {
 		names := genNameSet(rng)
-		g, err := newRig(r, RigOpt{Transport: "unix", Ifaces: names, UseListen: k%2 == 1})
+		// every third set is registered in two steps on the same service object: the later names are first called
+		// while they are unknown (InterfaceNotFound), then registered during a pause in serving, then called again
+		first, later := names, []string(nil)
+		if k%3 == 2 && len(names) >= 2 {
+			first, later = names[:len(names)/2], names[len(names)/2:]
+		}
+		g, err := newRig(r, RigOpt{Transport: "unix", Ifaces: first, UseListen: k%2 == 1})
 		if err != nil {
 			rigFailure(r, "C04", err, names)
 			continue
 		}
-		for j := 0; j < perSet; j++ {
-			cc := &c01Case{Transport: "unix", UseListen: k%2 == 1, Ifaces: names}
-			nc := 1
-			if j%4 == 3 {
-				nc = 3
+		for phase := 0; phase < 2; phase++ {
+			if phase == 1 {
+				if later == nil {
+					break
+				}
+				if err := g.Restart(later); err != nil {
+					r.Violation("C04 register-and-serve-again", fmt.Sprintf("names %q registered after a shutdown of the same object: %v", later, err), names)
+					break
+				}
+				r.Count("two_step_registrations", 1)
 			}
-			for x := 0; x < nc; x++ {
-				tag++
-				cc.Conns = append(cc.Conns, c04Conn(rng, names, fmt.Sprintf("r%d", tag), nm))
-			}
-			if r.ViolationCount() > 12 || g.tainted {
-				break
-			}
-			r.Journal(0, cc)
-			c01Round(r, g, "C04", cc, true)
-			r.Done(0)
-			for _, cs := range cc.Conns {
-				b, _ := json.Marshal(cs.Calls)
-				r.Case(fw.Hash(strings.Join(names, "\x01"), string(b)), true)
-				for _, c := range cs.Calls {
-					if c.Raw == "" {
-						r.Distinct("method_strings", c.Method)
+			for j := 0; j < perSet; j++ {
+				if r.ViolationCount() > 12 || g.tainted {
+					break
+				}
+				cc := &c01Case{Transport: "unix", UseListen: k%2 == 1, Ifaces: append([]string{}, g.Reg.Names[1:]...), LaterIfaces: nil}
+				if phase == 0 {
+					cc.LaterIfaces = later
+				}
+				nc := 1
+				if j%4 == 3 {
+					nc = 3
+				}
+				for x := 0; x < nc; x++ {
+					tag++
+					// method strings are drawn from ALL names of the set, registered yet or not
+					cc.Conns = append(cc.Conns, c04Conn(rng, names, fmt.Sprintf("r%d", tag), nm))
+				}
+				r.Journal(0, cc)
+				c01Round(r, g, "C04", cc, true)
+				r.Done(0)
+				for _, cs := range cc.Conns {
+					b, _ := json.Marshal(cs.Calls)
+					r.Case(fw.Hash(strings.Join(names, "|"), fmt.Sprint(phase), string(b)), true)
+					for _, c := range cs.Calls {
+						if c.Raw == "" {
+							r.Distinct("method_strings", c.Method)
+						}
 					}
 				}
-			}
-			if j == 0 && k%10 == 0 {
-				r.Sample(map[string]interface{}{"registered": names, "connection": cc.Conns[0]})
+				if j == 0 && k%10 == 0 {
+					r.Sample(map[string]interface{}{"registered": g.Reg.Names, "registered_later": cc.LaterIfaces, "connection": cc.Conns[0]})
+				}
 			}
 		}
 		r.Distinct("registered_name_sets", strings.Join(names, "|"))
